@@ -390,6 +390,19 @@ impl Engine for RecvEngine {
                 }
                 obs
             }
+            "fzc" if t.len() >= 3 => {
+                if self.dead || self.rx.is_none() {
+                    return "fz".into();
+                }
+                let now: i64 = t[2].parse().unwrap_or(0);
+                let rx = self.rx.as_mut().unwrap();
+                let (r, evs, dt) = Self::call(rx, true, |r| {
+                    r.cleanup(st(now));
+                    true
+                });
+                let _ = self.observe(r, evs, dt, now, o, "cleanup");
+                "fz".into()
+            }
             "cleanup" if t.len() >= 4 => {
                 if self.dead || self.rx.is_none() {
                     return "dead".into();
